@@ -40,6 +40,8 @@ func main() {
 		oracle(os.Args[2:])
 	case "replay":
 		replay(os.Args[2:])
+	case "srvcorr": // phase 5: the server's validate operation against the extracted store model (srvcorr.go)
+		srvcorr(os.Args[2:])
 	default:
 		fmt.Fprintln(os.Stderr, "unknown mode")
 		os.Exit(2)
